@@ -274,6 +274,8 @@ and run_succ_q synthetic q a =
       | "oldpk" -> (sp, (fst old, set_at j bad (snd old)), nw)
       | "newpk" -> (sp, old, (fst nw, set_at j bad (snd nw)))
       | "oldlong" -> (sp, (fst old, snd old @ [atom (zi 5)]), nw)
+      | "oldpad" -> (sp, (fst old, snd old @ List.init (int_of_string arg) (fun _ -> atom (zi 5))), nw)
+      | "newpad" -> (sp, old, (fst nw, snd nw @ List.init (int_of_string arg) (fun _ -> atom (zi 5))))
       | "oldshort" -> (sp, (fst old, take (List.length (snd old) - 1) (snd old)), nw)
       | "oldcut" ->
           (* drop the last old peak together with its segment of the proof *)
